@@ -227,18 +227,7 @@ pub trait PathImpl: 'static {
 	#[inline]
 	fn normalized(&self) -> Self::Owned {
 		let mut result = self.to_path_buf();
-		result.as_path_mut().normalize();
-
-		// A final dot segment leaves a trailing `/` (RFC 3986, Section 5.2.4).
-		let open = matches!(
-			self.last().map(SegmentImpl::as_bytes),
-			Some(CURRENT_SEGMENT) | Some(PARENT_SEGMENT)
-		);
-
-		if open && !result.is_empty() {
-			result.as_path_mut().push(Self::Segment::EMPTY)
-		}
-
+		result.as_path_mut().remove_dot_segments();
 		result
 	}
 
